@@ -117,6 +117,7 @@ type lexer struct {
 	mode   mode
 	last   token // The last emitted token
 	parens int   // Number of open parenthesis
+	braces int   // Number of open hashes, a subset of parens
 }
 
 // nextToken returns the next token emitted by the lexer.
@@ -140,7 +141,7 @@ func (l *lexer) tokenize() {
 func newLexer(input io.Reader) *lexer {
 	// TODO: lexer should use the reader.
 	i, _ := ioutil.ReadAll(input)
-	return &lexer{0, 0, 1, 0, string(i), make(chan token), nil, modeNormal, token{}, 0}
+	return &lexer{0, 0, 1, 0, string(i), make(chan token), nil, modeNormal, token{}, 0, 0}
 }
 
 func (l *lexer) next() (val string) {
@@ -252,8 +253,9 @@ func lexExpression(l *lexer) stateFn {
 		}
 		return lexTagClose
 
-	case strings.HasPrefix(l.input[l.pos:], delimClosePrint),
-		strings.HasPrefix(l.input[l.pos:], delimTrimWhitespace+delimClosePrint):
+	case l.braces == 0 && (strings.HasPrefix(l.input[l.pos:], delimClosePrint) ||
+		strings.HasPrefix(l.input[l.pos:], delimTrimWhitespace+delimClosePrint)):
+		// Inside an open hash "}}" closes two hashes, as in {{ {a: {b: 1}} }}.
 		if l.pos > l.start {
 			return l.errorf("pos > start, previous token not emitted?")
 		}
@@ -426,6 +428,7 @@ func lexOpenParens(l *lexer) stateFn {
 
 	case str == "{":
 		l.emit(tokenHashOpen)
+		l.braces++
 
 	default:
 		return l.errorf("unknown parenthesis")
@@ -447,6 +450,9 @@ func lexCloseParens(l *lexer) stateFn {
 			return nil
 		}
 		l.emit(tokenHashClose)
+		if l.braces > 0 {
+			l.braces--
+		}
 
 	default:
 		return l.errorf("invalid parenthesis")
